@@ -3,7 +3,8 @@ from genlib import *
 
 LEAN_MODULES = ["MpirProofs.Props.C09Rootrem"]
 THEOREMS = ["Mpir.Rootrem.rootrem_basecase_spec", "Mpir.Rootrem.rootrem_basecase_spec_threshold"]
-PINS = [("mpn/generic/rootrem_basecase.c", "mpn_rootrem_basecase"), ("mpn/generic/pow_1.c", "mpn_pow_1")]
+PINS = [("mpn/generic/rootrem_basecase.c", "mpn_rootrem_basecase"), ("mpn/generic/pow_1.c", "mpn_pow_1"),
+        ("mpn/generic/rootrem.c", "mpn_rootrem"), ("mpn/generic/rootrem.c", "mpn_rootrem_internal")]
 TRUSTED = ["hand-written model lean/Mpir/Model/Rootrem.lean: mpn_rootrem_basecase at value + limb-count level "
            "(every value, every limb count a test reads, every branch and ASSERT_ALWAYS in source order; buffer capacities "
            "PP_ALLOC/EXTRA and their ASSERT_ALWAYS, carries inside the mpn kernels are not represented); mpn_pow_1, mpn_tdiv_qr, "
@@ -80,5 +81,46 @@ def basecase_ops(rng, tier):
         for k in (1 << 32, (1 << 32) + 1, 1 << 63, (1 << 64) - 1, u.bit_length() - 1, u.bit_length(), u.bit_length() + 1):
             if k >= 2: yield _bc(u, k)
 
+def _ri(rng, u, k):
+    yield "mpn_rootrem_i %s %x" % (vec(limbs_of(u)), k)
+    yield "mpn_rootrem_i_norem %s %x" % (vec(limbs_of(u)), k)
+
+def internal_ops(rng, tier):
+    """mpn_rootrem at and above ROOTREM_THRESHOLD (6 limbs): mpn_rootrem_internal with approx = 0 and, for remp == NULL
+    and un / k > 2, the padded approximate call; below the threshold the dispatcher goes to the basecase."""
+    quick = tier == "quick"
+    for nl in [4, 5, 6, 7, 8, 9, 10, 12, 13, 16] + ([] if quick else [20, 33, 64, 100]):
+        ks = [2, 3, 4, 5, 6, 7, 8, 9, 15, 16, 17, 31, 32, 33, 63, 64, 65, 127, 128, 129, nl * 16, nl * 32 - 1, nl * 32, nl * 64 - 1, nl * 64,
+              nl * 64 + 1, rng.randrange(2, nl * 64 + 70), 1 << 32, (1 << 63) + 1, (1 << 64) - 1]
+        for k in ks:
+            if k < 2: continue
+            rb = max(1, (nl * 64) // k - rng.randrange(0, 2))
+            for r in list(_roots(rng, rb))[: (6 if nl <= 8 or not quick else 2)]:
+                p = r ** k if k < 100000 else 1
+                for u in (p - 1, p, p + 1, (r + 1) ** k - 1 if k < 100000 else 0):
+                    if u > 0 and nl * 64 - 64 < u.bit_length() <= nl * 64 + 64: yield from _ri(rng, u, k)
+            u = 0
+            for i, x in enumerate(rand_limbs(rng, nl, rng.choice(["uniform", "runs", "ones", "top", "sparse"]))): u |= x << (64 * i)
+            if u >> (64 * (nl - 1)) == 0: u |= 1 << (64 * (nl - 1) + rng.randrange(64))
+            yield from _ri(rng, u, k)
+    # roots B^j - 1 (all ones: the candidate S*2^b + Q must not lose its top limb when decremented), operands B^(jk) - small
+    for j in (1, 2, 3, 4):
+        for k in (2, 3, 4, 5, 6, 7, 8, 9, 12, 16):
+            W = B ** j
+            for u in (W ** k - 1, W ** k - 2, (W - 1) ** k, (W - 1) ** k + 1, (W - 1) ** k - 1, W ** k - rng.getrandbits(64 * j), W ** k - rng.getrandbits(64),
+                      (W - 1) ** k + rng.getrandbits(64 * j), W ** k, W ** k + 1):
+                if u > 0 and len(limbs_of(u)) >= 6 and len(limbs_of(u)) <= 70: yield from _ri(rng, u, k)
+    # the padded path (remp == NULL, un / k > 2): exact powers whose padded root ends in a limb 0 (exact) / 1 / >= 2
+    for _ in range(300 if quick else 5000):
+        k = rng.choice([2, 2, 3, 3, 4, 5, 6, 7])
+        xl = rng.randrange(3, 8 if quick else 16)
+        x = rng.choice([rng.getrandbits(64 * xl - rng.randrange(0, 64)) | 1, (1 << (64 * xl - rng.randrange(0, 64))) - 1,
+                        (1 << (64 * xl - 1 - rng.randrange(0, 64))) + rng.getrandbits(rng.choice([1, 8, 64]))])
+        if x < 2: continue
+        p = x ** k
+        for u in (p, p + 1, p - 1, p + rng.getrandbits(rng.choice([8, 64, 64 * xl]))):
+            if len(limbs_of(u)) >= 6: yield "mpn_rootrem_i_norem %s %x" % (vec(limbs_of(u)), k)
+
 def gen_ops(rng, tier, ctx=None):
     yield from basecase_ops(rng, tier)
+    yield from internal_ops(rng, tier)
